@@ -76,6 +76,7 @@ LineFails(ln) ==
       [] ln.ev = "range_absent" -> FailT(ln.ok /\ ln.size_absent, "C17:absent-key")
       [] ln.ev = "blob" -> BlobFails(ln)
       [] ln.ev = "blobr" -> UNION { FailT(ln.hash_ok, "C18:hash-differs-from-blake3-of-content"), FailT(ln.size = ln.len, "C18:size"), FailT(ln.file_ok, "C18:file-not-at-derived-path-or-wrong-bytes") }
+      [] ln.ev = "blobbatch" -> FailT(ln.bad = 0, "C18:file-not-at-derived-path-or-wrong-bytes")
       [] ln.ev = "path" -> PathFails(ln)
       [] ln.ev = "parse" -> ParseFails(ln)
       [] ln.ev = "dec_op" -> DecOpFails(ln)
